@@ -94,7 +94,7 @@ pub struct Machine {
 const PRIMS: &[&str] = &[
     "+", "-", "*", "=", "<", ">", "<=", ">=", "not", "null?", "pair?", "eq?", "eqv?", "equal?", "car", "cdr", "cons", "list",
     "length", "append", "reverse", "list-ref", "list-tail", "memq", "memv", "member", "assq", "assv", "assoc", "vector",
-    "make-vector", "vector-ref", "vector-set!", "vector-length", "vector->list", "list->vector", "set-car!", "set-cdr!",
+    "make-vector", "vector-ref", "vector-set!", "vector-fill!", "vector-copy", "vector-copy!", "vector-length", "vector->list", "list->vector", "set-car!", "set-cdr!",
     "apply", "call/cc", "call-with-current-continuation", "eval", "force", "error", "display", "write", "symbol?",
     "procedure?", "vector?", "string?", "boolean?", "number?", "integer?", "char?", "list?", "zero?", "string-length",
     "cadr", "cddr", "caar", "cdar", "abs", "min", "max", "even?", "odd?", "positive?", "negative?", "quotient",
@@ -974,6 +974,70 @@ impl Machine {
                             return Err(Abort::Error("index", None));
                         }
                         items[i] = args[2].clone();
+                        V::Unspec
+                    }
+                    _ => return Err(type_err()),
+                }
+            }
+            "vector-fill!" => {
+                Self::arity(&args, 2, Some(2))?;
+                match &args[0] {
+                    V::Vector(v) => {
+                        if v.constant && !v.items.borrow().is_empty() {
+                            return Err(Abort::Unspecified("mutation of a literal constant"));
+                        }
+                        for it in v.items.borrow_mut().iter_mut() {
+                            *it = args[1].clone();
+                        }
+                        V::Unspec
+                    }
+                    _ => return Err(type_err()),
+                }
+            }
+            "vector-copy" => {
+                // (vector-copy v [start]); the optional end argument is outside the modelled set
+                Self::arity(&args, 1, Some(2))?;
+                match &args[0] {
+                    V::Vector(v) => {
+                        let items = v.items.borrow();
+                        let start = match args.get(1) {
+                            Some(s) => Self::index(s)?,
+                            None => 0,
+                        };
+                        if start > items.len() {
+                            return Err(Abort::Error("index", None));
+                        }
+                        V::vector(items[start..].to_vec(), false)
+                    }
+                    _ => return Err(type_err()),
+                }
+            }
+            "vector-copy!" => {
+                // (vector-copy! to at from [start [end]])
+                Self::arity(&args, 3, Some(5))?;
+                match (&args[0], &args[2]) {
+                    (V::Vector(to), V::Vector(from)) => {
+                        let at = Self::index(&args[1])?;
+                        let src: Vec<V> = from.items.borrow().clone();
+                        let start = match args.get(3) {
+                            Some(s) => Self::index(s)?,
+                            None => 0,
+                        };
+                        let end = match args.get(4) {
+                            Some(e) => Self::index(e)?,
+                            None => src.len(),
+                        };
+                        let to_len = to.items.borrow().len();
+                        if start > end || end > src.len() || at > to_len || (to_len - at) < (end - start) {
+                            return Err(Abort::Error("index", None));
+                        }
+                        if to.constant && end > start {
+                            return Err(Abort::Unspecified("mutation of a literal constant"));
+                        }
+                        let mut dst = to.items.borrow_mut();
+                        for (k, item) in src[start..end].iter().enumerate() {
+                            dst[at + k] = item.clone();
+                        }
                         V::Unspec
                     }
                     _ => return Err(type_err()),
